@@ -41,11 +41,18 @@ type replayFile struct {
 func main() {
 	debug.SetGCPercent(400)       // allocation-heavy (every store iterator allocates)
 	debug.SetMemoryLimit(24 << 30) // collect harder instead of growing towards the machine's RAM
+	if len(os.Args) == 2 && os.Args[1] == "list" {
+		fmt.Println(strings.Join(scen.Registered(), " "))
+		os.Exit(0)
+	}
 	if len(os.Args) < 3 {
 		fmt.Fprintln(os.Stderr, "usage: hubmc run <Cxx> [flags] | hubmc replay <file>")
 		os.Exit(2)
 	}
 	switch os.Args[1] {
+	case "list":
+		fmt.Println(strings.Join(scen.Registered(), " "))
+		os.Exit(0)
 	case "run":
 		os.Exit(run(os.Args[2], os.Args[3:]))
 	case "replay":
